@@ -33,6 +33,8 @@ func main() {
 		os.Exit(cmdList(os.Args[2:]))
 	case "replay":
 		os.Exit(cmdReplay(os.Args[2:]))
+	case "counts":
+		os.Exit(cmdCounts(os.Args[2:]))
 	case "selftest":
 		os.Exit(cmdSelftest(os.Args[2:]))
 	default:
@@ -260,18 +262,18 @@ func cmdCheck(args []string) int {
 	cov := map[string]interface{}{
 		"explanation": "Static analysis (go/packages -> go/types -> go/ssa, VTA call graph) of package zap in the listed build configurations. " +
 			"Decides the structural clauses listed under 'decides' on every path / call site / field / configuration; does NOT decide the runtime-value clauses listed under 'does_not_decide'. " + pd.Explain,
-		"decides":            pd.Decides,
-		"does_not_decide":    pd.NotDecided,
-		"configurations":     cfgEv,
-		"rules":              ruleEv,
-		"obligations":        len(all),
-		"discharged":         discharged,
-		"evaluations":        len(all),
+		"decides":             pd.Decides,
+		"does_not_decide":     pd.NotDecided,
+		"configurations":      cfgEv,
+		"rules":               ruleEv,
+		"obligations":         len(all),
+		"discharged":          discharged,
+		"evaluations":         len(all),
 		"distinct_nontrivial": len(distinct),
-		"rule":               "one evaluation = one obligation (rule + construct + configuration) decided by dataflow/dominance/call-graph analysis; distinct = distinct rule+construct keys; all are non-trivial in that each names a concrete construct of /repo resolved through type information",
-		"samples":            samples,
-		"exhaustive":         true,
-		"checker_cmd":        "/verif/bin/zapxlint check -property " + *prop + " -tier " + *tier,
+		"rule":                "one evaluation = one obligation (rule + construct + configuration) decided by dataflow/dominance/call-graph analysis; distinct = distinct rule+construct keys; all are non-trivial in that each names a concrete construct of /repo resolved through type information",
+		"samples":             samples,
+		"exhaustive":          true,
+		"checker_cmd":         "/verif/bin/zapxlint check -property " + *prop + " -tier " + *tier,
 		"trusted_base": []string{"go list / go/packages loader", "go/types", "golang.org/x/tools v0.29.0 go/ssa + callgraph/vta + callgraph/cha",
 			"the go-faiss stub generator (FAISS functions are opaque externals with their real Go signatures)",
 			"the frozen rule tables in /verif/checker (one reason per line)"},
@@ -404,4 +406,36 @@ func cmdReplay(args []string) int {
 	}
 	fmt.Println("obligation no longer generated (construct gone)")
 	return 1
+}
+
+// cmdCounts prints, per rule / configuration / property, how many obligations
+// are generated (used to set the instance floors).
+func cmdCounts(args []string) int {
+	fs := flag.NewFlagSet("counts", flag.ExitOnError)
+	repo := fs.String("repo", "/repo", "repository root")
+	fs.Parse(args)
+	for _, c := range []Config{cfgDefault, cfgVectors} {
+		p, err := loadProgram(*repo, c)
+		if err != nil {
+			fmt.Println(err)
+			return 1
+		}
+		for _, r := range allRules() {
+			if r.VectorsOnly && !c.Vectors {
+				continue
+			}
+			for _, prop := range r.Props {
+				saved := r.Floor
+				r.Floor = nil
+				obs := runRule(r, p, prop)
+				r.Floor = saved
+				fl := 0
+				if saved != nil {
+					fl = saved(c, prop)
+				}
+				fmt.Printf("%-4s %-8s %-4s obligations=%3d floor=%3d\n", r.ID, c.Name, prop, len(obs), fl)
+			}
+		}
+	}
+	return 0
 }
